@@ -210,6 +210,10 @@ var Catalogue = []Rule{
 		bb.txs[0].AddTxOut(&wire.TxOut{Value: 0, PkScript: script})
 	}},
 
+	{Name: "witness-commitment-not-last", Stage: "bcontext", Need: always, // BIP141: of several commitment-shaped outputs the last one counts
+		Apply:    func(bb *blockBuilder) { bb.decoy = "after" },
+		EdgeNeed: always,
+		Edge:     func(bb *blockBuilder) { bb.decoy = "before" }},
 	{Name: "bad-coinbase-height", Stage: "bcontext",
 		Need: func(bb *blockBuilder) bool { return bb.height >= bb.f.Params.BIP0034Height },
 		Apply: func(bb *blockBuilder) {
